@@ -26,7 +26,20 @@ pub fn child(out: &str, limit: &str, seed: u64, threads: usize, single: bool) ->
     quiet_panics();
     let _saved = silence_stderr();
     set_zstd_cap(true);
-    if let Ok(n) = limit.parse::<u64>() {
+    if let Some(n) = limit.strip_prefix('t').and_then(|x| x.parse::<u64>().ok()) {
+        // transient fault: exactly one write fails (the handler lifts the limit), later writes succeed
+        extern "C" fn lift(_: libc::c_int) {
+            unsafe {
+                let r = libc::rlimit { rlim_cur: libc::RLIM_INFINITY, rlim_max: libc::RLIM_INFINITY };
+                libc::setrlimit(libc::RLIMIT_FSIZE, &r);
+            }
+        }
+        unsafe {
+            libc::signal(libc::SIGXFSZ, lift as extern "C" fn(libc::c_int) as libc::sighandler_t);
+            let r = libc::rlimit { rlim_cur: n, rlim_max: libc::RLIM_INFINITY };
+            libc::setrlimit(libc::RLIMIT_FSIZE, &r);
+        }
+    } else if let Ok(n) = limit.parse::<u64>() {
         unsafe {
             libc::signal(libc::SIGXFSZ, libc::SIG_IGN);
             let r = libc::rlimit { rlim_cur: n, rlim_max: n };
@@ -54,8 +67,12 @@ pub fn child(out: &str, limit: &str, seed: u64, threads: usize, single: bool) ->
 }
 
 fn run_child(bin: &str, out: &str, limit: Option<u64>, seed: u64, threads: usize, single: bool, bufcap: Option<usize>) -> (String, String) {
+    run_child_f(bin, out, limit, false, seed, threads, single, bufcap)
+}
+
+fn run_child_f(bin: &str, out: &str, limit: Option<u64>, transient: bool, seed: u64, threads: usize, single: bool, bufcap: Option<usize>) -> (String, String) {
     let mut c = Command::new(bin);
-    c.args(["c15-child", out, &limit.map(|l| l.to_string()).unwrap_or("none".into()), &seed.to_string(), &threads.to_string(), if single { "1" } else { "0" }]);
+    c.args(["c15-child", out, &limit.map(|l| format!("{}{l}", if transient { "t" } else { "" })).unwrap_or("none".into()), &seed.to_string(), &threads.to_string(), if single { "1" } else { "0" }]);
     match bufcap { Some(b) => { c.env("RAGC_VERIF_BUFCAP", b.to_string()); } None => { c.env_remove("RAGC_VERIF_BUFCAP"); } }
     let o = c.stdin(Stdio::null()).stdout(Stdio::piped()).stderr(Stdio::null()).output();
     match o {
@@ -74,7 +91,7 @@ pub fn run() -> i32 {
         "C15",
         "main",
         "fault_enumeration",
-        "the first failing write (EFBIG via RLIMIT_FSIZE) is injected at EVERY byte offset 0..len of a 3-sample archive with the write buffer capped at 16 bytes (hook) so that each add_part / footer / length write is a separate write(2) and fails at its own call site; multi-file and single-file drivers, 1 and 3 worker threads; plus the production 4 MiB buffer at every 16th offset, ENOSPC through /dev/full, and `ragc create` itself on a subset; oracle: create returns an error (CLI: non-zero exit); a reported success must leave a complete, readable archive. non-trivial = distinct offsets at which the injected fault was reported",
+        "the first failing write (EFBIG via RLIMIT_FSIZE) is injected at EVERY byte offset 0..len of a 3-sample archive with the write buffer capped at 16 bytes (hook) so that each add_part / footer / length write is a separate write(2) and fails at its own call site; multi-file and single-file drivers, 1 and 3 worker threads; two fault kinds per offset: sticky (all later writes fail too) and transient (only that one write fails); plus the production 4 MiB buffer at every 16th offset, ENOSPC through /dev/full, and `ragc create` itself on a subset; oracle: create returns an error (CLI: non-zero exit); a reported success must leave a complete, readable archive. non-trivial = distinct offsets at which the injected fault was reported",
     );
     quiet_panics();
     let th = rep.thorough();
@@ -100,14 +117,19 @@ pub fn run() -> i32 {
         let len = std::fs::metadata(&ref_out).map(|m| m.len()).unwrap_or(0);
         let offsets: Vec<u64> = (0..len).step_by(step).chain([len.saturating_sub(9), len.saturating_sub(8), len.saturating_sub(1)]).collect();
         let label = format!("threads={threads} single_file={single} bufcap={:?}", bufcap);
-        par_for(offsets.len(), ncpu(), |i| {
-            let n = offsets[i];
+        // fault kinds: sticky (every write beyond the limit fails) and, with the capped buffer, transient
+        // (exactly one write fails, later ones succeed: quota raised / space freed)
+        let jobs: Vec<(u64, bool)> = offsets.iter().map(|&n| (n, false)).chain(offsets.iter().filter(|_| bufcap.is_some()).map(|&n| (n, true))).collect();
+        par_for(jobs.len(), ncpu(), |i| {
+            let (n, transient) = jobs[i];
             let out = format!("{}/o{}-{}.agc", dir.display(), i, n);
-            let (r, v) = run_child(&bin, &out, Some(n), seed, threads, single, bufcap);
+            let (r, v) = run_child_f(&bin, &out, Some(n), transient, seed, threads, single, bufcap);
             evals.fetch_add(1, Ordering::Relaxed);
-            let det = json!({"variant": label, "archive_len": len, "first_failing_offset": n, "result": r, "verify": v});
+            let det = json!({"variant": label, "archive_len": len, "first_failing_offset": n, "fault": if transient { "one write fails with EFBIG, later writes succeed" } else { "every write beyond the offset fails with EFBIG" }, "result": r, "verify": v});
             if r.starts_with("R err") {
                 reported.fetch_add(1, Ordering::Relaxed);
+            } else if r == "R ok" && transient {
+                rep.violation("C15:success_reported_after_one_failed_write", "create reported success although one write failed (transient fault; later writes succeeded)", det);
             } else if r == "R ok" {
                 rep.violation("C15:success_reported_after_failed_write", "create reported success although a write failed (file-size limit below the archive size)", det);
             } else if r.starts_with("R panic") {
@@ -135,7 +157,7 @@ pub fn run() -> i32 {
         } else {
             reported.fetch_add(1, Ordering::Relaxed);
         }
-        per.push(json!({"variant": label, "archive_len": len, "offsets": offsets.len()}));
+        per.push(json!({"variant": label, "archive_len": len, "offsets": offsets.len(), "fault_points": jobs.len()}));
         rep.sample(json!({"variant": label, "archive_len": len, "fault": "RLIMIT_FSIZE = n for every n listed", "offsets": if step == 1 { "all".to_string() } else { format!("every {step}th + last 9") }}));
     }
     // CLI level
